@@ -290,10 +290,26 @@ async def scenario(loop: vloop.VirtualLoop, ctx, trial: int) -> None:
     learned: set[str] = set()
     converged_at = None
     t = 0.0
+    # what an application does meanwhile: an integration reload stops and starts the same gateway object (same radio,
+    # a new transport) - after the faulted first round, before the next one
+    restart_at = rng.choice((2 * 3600.0, 5 * 3600.0)) if plan != "none" and trial % 8 == 5 else None
+    meta["gateway_restarted_at_s"] = restart_at
     while t < bound:
         step = 900.0 if t >= 900.0 else 60.0
         await asyncio.sleep(step)
         t += step
+        if restart_at is not None and t >= restart_at:
+            from .boundary import serial_patched
+
+            restart_at = None
+            old_port = gwy._vrf_port
+            await gwy.stop()
+            new_port = air.swap_stick(old_port, GWY_ID)
+            with serial_patched():
+                await gwy.start()
+            gwy._vrf_port = new_port
+            ctx.count("gateway_restarts")
+            await asyncio.sleep(1.0)
         try:
             got = project(gwy.schema)
         except Exception as err:  # noqa: BLE001  (C13's subject)
